@@ -8,7 +8,7 @@ import time
 from harness.common import Collector, strings_upto
 
 SOUP = ["<", ">", "/", "a", "!", "-", "?", "&", "#", ";", '"', "=", " ", "[", "b", "1"]
-VOID = ["br", "img", "hr", "input"]
+VOID = ["br", "img", "hr", "input", "area", "base", "col", "embed", "link", "meta", "param", "source", "track", "wbr"]   # every HTML void element
 TAGS = ["div", "p", "span", "a", "b"]
 
 
@@ -119,6 +119,27 @@ def check_roundtrip(col, text):
     cp = root.deepcopy()
     if snapshot(root) != before or snapshot(cp) != before or cp is root:
         col.fail("C16.copy", case, "deepcopy altered the original or is not an equal fresh tree")
+    # ... and nothing of a copy is shared with the original: editing the copy (attributes, children, data) leaves the original alone
+    for make in (lambda: root.deepcopy(), lambda: root.strip(inplace=False, recurse=True), lambda: root.strip(inplace=False, recurse=False)):
+        cp = make()
+        todo = [cp]
+        while todo:
+            e = todo.pop()
+            e.attrs["zz-edited"] = "1"
+            for k in list(e.attrs):
+                e.attrs[k] = "edited"
+            if hasattr(e, "data") and isinstance(getattr(e, "data", None), str):
+                try:
+                    e.data = "edited"
+                except AttributeError:
+                    pass
+            todo.extend(e._children)
+            if e._children:
+                e._children.reverse()
+        if snapshot(root) != before:
+            col.fail("C16.copy-shares", case, "editing a copy (deepcopy / strip) changed the original: something is shared",
+                     function="myst_parser.parsers.parse_html:Element.deepcopy")
+            break
     # find = exactly the matching elements in document order
     allel = []
 
